@@ -705,6 +705,8 @@ class Gen:
                 i = self.do_impl(toks[1:], i + 1, lines)
             elif d == "peg":
                 i = self.do_peg(toks[1:], i + 1, lines)
+            elif d == "pegguard":
+                i = self.do_pegguard(toks[1:], i + 1, lines)
             else:
                 raise SystemExit("unknown directive %s in %s" % (d, self.unit_path))
 
@@ -955,6 +957,42 @@ class Gen:
         txt = sig + "\n" + (c.rstrip("\n") + "\n" if c.strip() else "") + "{" + body + "}\n"
         item.gen_lines = self.emit(txt)
         return i + 1
+
+
+def _do_pegguard(self, toks, i, lines):
+    """//@pegguard <file> <rule> name=<fn> params="t: &Token, val: &str": the boolean guard of a
+    `[pat if guard]` element pattern of the rule, as `fn name(params) -> bool { guard }`."""
+    pos, kv = parse_kv(toks)
+    rel, rule = pos[0], pos[1]
+    s = src(rel)
+    r = find_peg_rule(s, rule)
+    mm = re.search(r"\[\s*([A-Za-z_]\w*)\s+if\b", s.m[r["body_start"]:r["end"]])
+    if not mm:
+        raise AnchorLost("peg rule %s has no `[x if guard]` pattern" % rule)
+    br = r["body_start"] + mm.start()
+    close = s.match_close(br)
+    gstart = r["body_start"] + mm.end()
+    var = mm.group(1)
+    params = kv.get("params", "")
+    pnames = [p.split(":")[0].strip() for p in split_depth0(params, ",") if p.strip()]
+    if not pnames or pnames[0] != var:
+        raise AnchorLost("peg rule %s: pattern variable %s != first parameter of spec %s" % (rule, var, pnames))
+    contract, extra, i, term = self.collect(i, lines)
+    fname = kv.get("name", "guard_" + rule)
+    ident = "pegguard:%s" % rule
+    item = self.new_item(ident, "peg", kv, rel, s, gstart, close - 1)
+    item.name = fname
+    cl = count_clauses(contract)
+    for k in cl:
+        item.clauses[k] += cl[k]
+    self.emit("// ---- peg pattern guard of rule %s from %s:%d" % (rule, rel, s.line_of(gstart)))
+    c = self.vac(contract, ident)
+    txt = "pub fn %s(%s) -> (r: bool)\n" % (fname, params) + (c.rstrip("\n") + "\n" if c.strip() else "") + "{" + s.text[gstart:close] + "}\n"
+    item.gen_lines = self.emit(txt)
+    return i + 1
+
+
+Gen.do_pegguard = _do_pegguard
 
 
 def generate(unit_path, out_path, vacuity=False):
